@@ -197,6 +197,8 @@ void blast()
         if (r == -1) temp_read();
         if (ch != '\n') {
           substdio_put(&smtpto, "\r\n", 2);
+          if (ch == '.')
+            substdio_put(&smtpto, ".", 1);
         } else
           break;
       }
